@@ -19,6 +19,29 @@ HARNESS_BIN = os.path.join(BUILD, "target-harness", "release", "plsverif")
 SERVER_TARGET = os.path.join(BUILD, "target-server")
 SERVER_BIN = os.path.join(SERVER_TARGET, "release", "pytest-language-server")
 REPO = "/repo"
+# Seeded-fault self-test only (tools/seedrun.py): run the same checks against a scratch copy of the
+# repository outside /repo and /verif, with separate build and evidence directories.  The registered
+# commands never set these variables and always build from /repo.
+if os.environ.get("VERIF_ALT_REPO"):
+    REPO = os.environ["VERIF_ALT_REPO"]
+    _sfx = os.environ.get("VERIF_ALT_TAG", "alt")
+    EVID = os.path.join(BUILD, "evidence-" + _sfx)
+    REPLAYS = os.path.join(EVID, "replays")
+    SERVER_TARGET = os.path.join(BUILD, "target-server-" + _sfx)
+    SERVER_BIN = os.path.join(SERVER_TARGET, "release", "pytest-language-server")
+    _alt_h = os.path.join(BUILD, "harness-" + _sfx)
+    if not os.path.exists(_alt_h):
+        import shutil as _sh
+        _sh.copytree(HARNESS_DIR, _alt_h, ignore=_sh.ignore_patterns("target"))
+    for _f in os.listdir(os.path.join(HARNESS_DIR, "src")):
+        import shutil as _sh
+        _sh.copy(os.path.join(HARNESS_DIR, "src", _f), os.path.join(_alt_h, "src", _f))
+    _ct = open(os.path.join(HARNESS_DIR, "Cargo.toml")).read().replace('path = "/repo"', 'path = "%s"' % REPO)
+    open(os.path.join(_alt_h, "Cargo.toml"), "w").write(_ct)
+    _cc = open(os.path.join(HARNESS_DIR, ".cargo", "config.toml")).read().replace("../.build/target-harness", "../target-harness-" + _sfx)
+    open(os.path.join(_alt_h, ".cargo", "config.toml"), "w").write(_cc)
+    HARNESS_DIR = _alt_h
+    HARNESS_BIN = os.path.join(BUILD, "target-harness-" + _sfx, "release", "plsverif")
 
 
 class ToolError(Exception):
